@@ -1269,3 +1269,10 @@ func utf16Less(a, b string) bool {
 func SortPairs(l []Pair) {
 	sort.SliceStable(l, func(i, j int) bool { return utf16Less(l[i].Name, l[j].Name) })
 }
+
+// CanonicalIPv6 reports whether inner (the text between the brackets) is an IPv6 address in the
+// standard's serialization (parses, and serializes to itself).
+func CanonicalIPv6(inner string) bool {
+	a, ok := parseIPv6([]rune(inner))
+	return ok && serializeIPv6(a) == inner
+}
